@@ -959,3 +959,74 @@ Fixpoint prop_batch_tail (ST : nat -> stmt) (b : bargs) (F : batch_frame) (xs : 
       | _, _ => false
       end
   end.
+
+(* ------------------------------------------------------------------------------------ *)
+(* Known finding F17, class stale-cached-metadata-without-ext                              *)
+(* ------------------------------------------------------------------------------------ *)
+
+(* the envelope of the class, on one call: no extension on the connection and cached result
+   metadata requested.  C14_faithful is proved for every call outside it. *)
+Definition known_classb (ext uc : bool) : bool := negb ext && uc.
+Definition KnownClass (ext uc : bool) : Prop := ext = false /\ uc = true.
+
+(* The property's own bookkeeping along a recorded history: per statement the columns the
+   server most recently ANNOUNCED — at (re-)preparation (a PREPARED for the statement's text
+   with the statement's id that carries columns) or together with a new metadata id (Rows with
+   METADATA_CHANGED) — and whether that announcement was a re-preparation. *)
+Record ann_state := mkAnn { an_latest : nat -> list col; an_reprep : nat -> bool }.
+
+Definition is_nil {A} (l : list A) : bool := match l with [] => true | _ => false end.
+
+Definition ann_xchg (ST : nat -> stmt) (ns : nat) (an : ann_state) (x : xchg) : ann_state :=
+  match x_req x, x_resp x with
+  | Q_prepare t, RPrepared id m =>
+      match stmt_of_text ST ns t with
+      | Some s =>
+          if bytes_eqb id (s_id (ST s)) && negb (is_nil (m_cols m))
+          then mkAnn (upd (an_latest an) s (m_cols m)) (upd (an_reprep an) s true)
+          else an
+      | None => an
+      end
+  | Q_execute f, RRows b =>
+      match rb_meta b, stmt_of_id ST ns (f_id f) with
+      | RM_full (Some _) cols, Some s => mkAnn (upd (an_latest an) s cols) (upd (an_reprep an) s false)
+      | _, _ => an
+      end
+  | _, _ => an
+  end.
+
+(* One executed statement of the history: did the caller decode rows that came WITHOUT metadata
+   (as requested) with other columns than the most recently announced ones?  [Some in_class]:
+   yes; in_class = the call is in the envelope and the latest announcement was a re-preparation. *)
+Definition stale_op (ST : nat -> stmt) (ns : nat) (an : ann_state) (ext : bool) (a : xargs)
+  (xs : list xchg) (out : obs_out) : option bool :=
+  match last (map Some xs) None, out with
+  | Some x, OB_rows cols _ _ _ =>
+      match x_req x, x_resp x with
+      | Q_execute f, RRows b =>
+          match rb_meta b with
+          | RM_none _ =>
+              if f_skip f && negb (list_eqb col_eqb cols (an_latest an (xa_stmt a)))
+              then Some (known_classb ext (xa_use_cached a) && an_reprep an (xa_stmt a))
+              else None
+          | RM_full _ _ => None
+          end
+      | _, _ => None
+      end
+  | _, _ => None
+  end.
+
+(* all offending operations of a history: (index, in_class) *)
+Fixpoint stale_check (ST : nat -> stmt) (ns : nat) (an : ann_state) (i : nat) (tr : list top)
+  : list (nat * bool) :=
+  match tr with
+  | [] => []
+  | TO_exec _ ext a xs out :: r =>
+      let an' := fold_left (ann_xchg ST ns) xs an in
+      match stale_op ST ns an' ext a xs out with
+      | Some cl => (i, cl) :: stale_check ST ns an' (Datatypes.S i) r
+      | None => stale_check ST ns an' (Datatypes.S i) r
+      end
+  | TO_batch _ _ _ xs _ :: r => stale_check ST ns (fold_left (ann_xchg ST ns) xs an) (Datatypes.S i) r
+  | TO_event _ _ :: r => stale_check ST ns an (Datatypes.S i) r
+  end.
